@@ -3,6 +3,9 @@ import json
 import os
 import shutil
 
+import time
+
+import cluster
 import vlib
 from vlib import Check, ToolError
 
@@ -15,6 +18,102 @@ def keyfn(b, r):
     low_dead = any(d < max(alive) for d in dead)
     return "C14:%s@%s" % (r.get("what", "").replace(" ", "_"),
                           "lower_id_down" if low_dead else ("higher_id_down" if dead else "all_alive"))
+
+
+def _range(v):
+    """'Some(ProcessRange { index: 0, len: 2 })' | {'index':..,'len':..} | None -> (index, len) or None"""
+    if isinstance(v, dict):
+        return (v.get("index"), v.get("len"))
+    if isinstance(v, str) and "index:" in v:
+        import re
+        m = re.search(r"index: (\d+), len: (\d+)", v)
+        if m:
+            return (int(m.group(1)), int(m.group(2)))
+    return None
+
+
+def _owns(r, h):
+    return r is not None and (r[1] < 2 or h % r[1] == r[0])
+
+
+def cluster_leg(c, sc, views):
+    """The same requirement on a REAL cluster, before and after traffic: three node processes, the node with the smallest
+    id is killed and expires on the others by the genuine 15 s liveness rule; HTTP registrations for services of both
+    residues are then sent to both survivors (so each forwards some of them to the other over gRPC) and the survivors' view is
+    judged again - forwarding a write must not change who is considered alive."""
+    cl = cluster.Cluster(sc + "/own_cluster", 3)
+    keys = ["ownsvc%d" % i for i in range(12)]
+    obs = []
+
+    def snapshot(label, alive):
+        ans = {}
+        for n in alive:
+            r = cl.nodes[n].call({"op": "owner_query", "keys": keys}, timeout=8)
+            if r.get("res") != "ok":
+                raise ToolError("owner_query failed on node %d: %s" % (n, r))
+            ans[n] = r
+        port_of = {cl.nodes[n].port: n for n in cl.nodes}
+        view = [v for v in views if v["n"] == 3 and sorted(v["alive"]) == sorted(alive)][0]
+        bad = None
+        for ki, k in enumerate(keys):
+            h = int(ans[alive[0]]["routes"][ki]["hash"])
+            owners = [n for n in alive if _owns(_range(ans[n]["actor_range"]), h)]
+            routed = {}
+            for n in alive:
+                rt = ans[n]["routes"][ki]["route"]
+                routed[n] = n if rt == "local" else port_of.get(int(rt.rsplit(":", 1)[1]), 0)
+            exp = view["owner"][str(h % 60)] if isinstance(view["owner"], dict) else view["owner"][h % 60]
+            if len(owners) != 1:
+                bad = ("service key is not owned by exactly one live node", {"key": k, "alive": alive, "owners": "exactly one"},
+                       {"owners": owners, "actor_ranges": {n: ans[n]["actor_range"] for n in alive}})
+            elif any(routed[n] != owners[0] for n in alive):
+                bad = ("a live node routes a write to a node that is not the owner", {"key": k, "owner": owners[0]}, {"routed": routed})
+            elif exp != owners[0]:
+                bad = ("owner differs from the specification", {"key": k, "owner": exp}, {"owner": owners[0]})
+            if bad:
+                break
+        obs.append({"at": label, "alive": alive, "ranges": {n: ans[n]["actor_range"] for n in alive}, "ok": bad is None})
+        return bad
+
+    def settled(alive):
+        try:
+            return snapshot("poll", alive) is None
+        except (ToolError, KeyError, ValueError, IndexError):
+            return False
+    try:
+        cl.start()
+        cl.wait(lambda: settled([1, 2, 3]), 60, "three nodes agree on the ownership of the all-alive view")
+        obs.clear()
+        bad = snapshot("all alive", [1, 2, 3])
+        if not bad:
+            # move the leadership away from node 1 first (see C06 known finding bootstrap_leader), then kill node 1
+            cl.nodes[1].kill()
+            cl.wait(lambda: settled([2, 3]), 90, "the survivors consider node 1 dead (15 s liveness) and agree on ownership")
+            obs.clear()
+            bad = snapshot("node 1 dead, before traffic", [2, 3])
+        sent = 0
+        if not bad:
+            for rnd in range(3):
+                for ki, k in enumerate(keys):
+                    via = 2 + (ki + rnd) % 2
+                    r = cl.nodes[via].call({"op": "ns_http_register", "service": k, "ip": "10.4.0.%d" % (ki + 1), "port": 7000 + rnd, "weight": 1.0}, timeout=10)
+                    sent += 1 if r.get("res") == "ok" else 0
+                time.sleep(1.0)
+                bad = snapshot("node 1 dead, after traffic round %d" % rnd, [2, 3])
+                if bad:
+                    break
+        c.cov["cluster_leg"] = {"observations": obs, "http_registrations_acknowledged": sent}
+        c.traces(len(obs))
+        c.count(len(obs), [{"cluster_observation": o["at"]} for o in obs])
+        if sent < 12 and not bad:
+            raise ToolError("cluster leg: only %d HTTP registrations were acknowledged" % sent)
+        if bad:
+            what, exp, act = bad
+            c.violation("C14:cluster:%s@%s" % (what.replace(" ", "_"), obs[-1]["at"].split(",")[-1].strip().replace(" ", "_").rstrip("0123456789").rstrip("_")),
+                        "real 3-node cluster, %s: %s (expected %s, got %s)" % (obs[-1]["at"], what, json.dumps(exp), json.dumps(act)),
+                        {"observations": obs, "mismatch": {"what": what, "expected": exp, "actual": act}})
+    finally:
+        cl.shutdown()
 
 
 def run(tier):
@@ -37,6 +136,7 @@ def run(tier):
         raise ToolError("mini-node tool errors: %s" % summ)
     vlib.replay_results(c, views, res, keyfn, "ownership in a real node per local id",
                         nontrivial=lambda v: len(v["alive"]) < v["n"])
+    cluster_leg(c, sc, views)
     c.cov["views"] = len(views)
     c.cov["view_local_pairs"] = sum(len(v["alive"]) for v in views)
     c.cov["keys_per_view"] = summ.get("keys")
@@ -47,13 +147,16 @@ def run(tier):
         "ownership is what the REGISTRY ACTOR decides with (NamingActor.current_range), routing is NodeManage::route_addr; "
         "60 service keys, one per residue of lcm(1..5)",
         "node ids 1..n; every live node of a view is a separate OS process with that local id",
+        "cluster leg: one real 3-node cluster (node 1 killed, expiry by the genuine 15 s rule, no hook), 36 HTTP registrations "
+        "sent to both survivors; the views all-alive and {2,3} are judged before and after the traffic",
     ]
     shutil.rmtree(sc, ignore_errors=True)
     return c.finish(
         rule="complete enumeration by TLC of the 57 views (cluster size 1..5 x non-empty alive subset) with all 60 hash "
              "residues; every view is installed in a real node for every live local id (129 pairs) and, for 60 service "
              "keys covering every residue, the set of live nodes whose registry actor claims the key must be a singleton "
-             "and every live node must route to it; non-trivial = at least one node down",
+             "and every live node must route to it; plus one real 3-node cluster whose lowest node is killed: the survivors' ownership "
+             "and routing are judged before and after forwarded HTTP registrations; non-trivial = at least one node down",
         exhaustive=True,
         checker_cmd="tools/vcheck C14 --tier %s" % tier)
 
